@@ -1,6 +1,6 @@
 CONSTANTS MaxAtom = 2
- Objs = {o1, o2}
- Depth = 9
+ Objs = {o1}
+ Depth = 100
  FlushOnDelete = TRUE
  FlushOnCommit = TRUE
  ResetChangedOnAbort = TRUE
@@ -8,11 +8,11 @@ CONSTANTS MaxAtom = 2
  RecalcAllOnCommit = TRUE
  InitSlotsOnCopy = TRUE
  RestoreCacheOnAbort = TRUE
- FullFlushOnSpecialDelete = TRUE
+ FullFlushOnSpecialDelete = FALSE
  Elems <- SmallElems
  Orders <- SmallOrders
  Charges <- SmallCharges
- Views <- OneView
+
 SPECIFICATION Spec
 CONSTRAINT Bound
 INVARIANT CacheCoherent
